@@ -277,6 +277,9 @@ def template_cases():
             out.append(_tpl(lang, f"{wrap_open}  int a() {{ return 1; }} {mk}\n  int b() {{ return 2; }}\n  int c() {{ return 3; }} {mk}\n  int d() {{\n    return 4;\n  }}\n}}\n", ["a", "c"]))
     out.append(_tpl("Python", "def a(x): return x  # nocl\ndef b(y):\n    return y\n", ["a"]))
     out.append(_tpl("Python", "def a(x): return x\ndef b(y): return y  # nocl\ndef c(z):\n    return z\n", ["b"]))
+    # a form feed / vertical tab is NOT a line break to the tool (lines are \n-delimited): name and marker stay on one line
+    out.append(_tpl("Python", "def a(x): return x \x0c# nocl\ndef b(y):\n    return y\n", ["a"]))
+    out.append(_tpl("C", "int a(void) { return 1; } \x0c// nocl\nint b(void) {\n  return 3;\n}\n", ["a"]))
     return out
 
 
